@@ -87,7 +87,7 @@ impl Report {
             counters: Default::default(),
             samples: vec![],
             distinct: Default::default(),
-            max_fail: 200,
+            max_fail: 400,
         }
     }
     pub fn count(&mut self, k: &str) {
@@ -99,10 +99,13 @@ impl Report {
     /// `key` identifies the failing case canonically (used for known-finding matching).
     pub fn fail(&mut self, key: &str, detail: Value) {
         self.nfail += 1;
-        if self.failures.len() < self.max_fail {
+        let ck = format!("fail:{}", key);
+        // keep a few examples of EVERY failure key (not just the first failures overall)
+        let seen = self.counters.get(&ck).copied().unwrap_or(0);
+        if seen < 5 && self.failures.len() < self.max_fail {
             self.failures.push(json!({"key": key, "detail": detail}));
         }
-        self.count(&format!("fail:{}", key));
+        self.count(&ck);
     }
     pub fn sample(&mut self, v: Value) {
         if self.samples.len() < 5 {
